@@ -286,7 +286,7 @@ func (w *World) classifyMapRange(f *ssa.Function, rng *ssa.Range, s *detSite) {
 	// exits
 	exitOK := true
 	exitWhy := ""
-	for b := range li.body {
+	for _, b := range li.blocks() {
 		for _, succ := range b.Succs {
 			if li.body[succ] {
 				continue
@@ -313,7 +313,7 @@ func (w *World) classifyMapRange(f *ssa.Function, rng *ssa.Range, s *detSite) {
 		in   ssa.Instruction
 	}
 	var effs []eff
-	for b := range li.body {
+	for _, b := range li.blocks() {
 		for _, in := range b.Instrs {
 			switch x := in.(type) {
 			case *ssa.Store:
